@@ -372,13 +372,15 @@ impl Process {
         }
         #[cfg(acts_verif)]
         crate::verif::log(format!(
-            "N {} {} {} {} {} {}",
+            "N {} {} {} {} {} {} {} {}",
             self.id,
             task.id,
             node.id(),
             node.kind(),
             task.prev().unwrap_or("-".to_string()),
-            node.level
+            node.level,
+            if node.uses().is_empty() { "-".to_string() } else { node.uses() },
+            crate::utils::time::time_millis()
         ));
         self.push_task(task.clone());
         task
